@@ -36,10 +36,10 @@ SPEC = {
                     "administrator to write rows there are not re-run with admin credentials (class admin_run_skipped)"],
     "campaigns": [
         {"name": "no_cred_exhaustive_basic", "run": "^TestNoCredExhaustive$", "quick": B(1, 2, 600, env=_BASIC), "thorough": B(1, 2, 900, env=_BASIC)},
-        {"name": "no_cred_exhaustive_logkeeper", "run": "^TestNoCredExhaustive$", "quick": B(1, 2, 600, env=_LOGK), "thorough": B(1, 2, 900, env=_LOGK)},
-        {"name": "route_cred_basic", "run": "^TestRouteCred$", "quick": B(220, 4, 600, env=_BASIC, shrinktime="5s"), "thorough": B(3500, 6, 2400, env=_BASIC, shrinktime="20s")},
-        {"name": "route_cred_logkeeper", "run": "^TestRouteCred$", "quick": B(200, 1, 600, env=_LOGK, shrinktime="5s"), "thorough": B(3000, 2, 2400, env=_LOGK, shrinktime="20s")},
-        {"name": "privilege_matrix", "run": "^TestPrivilegeMatrix$", "quick": B(60, 1, 600, shrinktime="5s"), "thorough": B(1500, 2, 2400, shrinktime="20s")},
+        {"name": "no_cred_exhaustive_logkeeper", "run": "^TestNoCredExhaustive$", "quick": B(1, 1, 600, env=_LOGK), "thorough": B(1, 2, 900, env=_LOGK)},
+        {"name": "route_cred_basic", "run": "^TestRouteCred$", "quick": B(300, 2, 600, env=_BASIC, shrinktime="5s"), "thorough": B(3500, 6, 2400, env=_BASIC, shrinktime="20s")},
+        {"name": "route_cred_logkeeper", "run": "^TestRouteCred$", "quick": B(150, 1, 600, env=_LOGK, shrinktime="5s"), "thorough": B(3000, 2, 2400, env=_LOGK, shrinktime="20s")},
+        {"name": "privilege_matrix", "run": "^TestPrivilegeMatrix$", "quick": B(50, 1, 600, shrinktime="5s"), "thorough": B(1500, 2, 2400, shrinktime="20s")},
     ],
 }
 
